@@ -259,6 +259,15 @@ def build_collection(I: Interp, n, args, kwargs, fr: Frame, node=None):
         ty = T.strip_opt(d.ty)
         I.assume_dict_wf(SV(d.t, ty if ty.k in ("dict", "set") else T.DICT()))
         r = smt.rid(d.t)
+        if src.kind in ("keys", "values") and n == "list":
+            # a real list: element i is the i-th key / the value of the i-th key (insertion order)
+            keys_, get_, n_ = z3.Select(st.arr("dkeys"), r), z3.Select(st.arr("dget"), r), smt.simp(z3.Select(st.arr("dsz"), r))
+            iv = z3.Int("i!dl")
+            nr = st.new_ref(LIST_CID)
+            st.heap["llen"] = z3.Store(st.arr("llen"), nr, n_)
+            st.heap["lel"] = z3.Store(st.arr("lel"), nr, z3.Lambda([iv], z3.Select(keys_, iv) if src.kind == "keys" else z3.Select(get_, z3.Select(keys_, iv))))
+            ety = (ty.a[0] if ty.a else T.ANY) if src.kind == "keys" else (ty.a[1] if ty.k == "dict" and len(ty.a) > 1 else T.ANY)
+            return SV(smt.mk_ref(nr), T.LIST(ety))
         return PIter("snapshot", src.kind, z3.Select(st.arr("dkeys"), r), z3.Select(st.arr("dget"), r),
                      smt.simp(z3.Select(st.arr("dsz"), r)), ty)
     seq = to_seq(I, src)
